@@ -101,6 +101,82 @@ def pbfStrBlob (old : Bool) (input : Bytes) : Traced Unit :=
   | .err => ⟨.err, t1.allocs⟩
   | .panic => ⟨.panic, t1.allocs⟩
 
+/-! ## allocation trace of `VectorTile::from_blob`
+
+The result of the decoder is `VtModel.Mvt.decodeTile` (w-mvt's model, unchanged).  Next to it the
+functions below list, for the same control flow, the sizes of the **announced-length allocations**
+the code makes on the way: `vec![0u8; length]` in `read_string` (layer name, keys, string values)
+and `Blob::new_sized(length)` in `read_blob` (geometry).  Sub-messages are sub-slices (no
+allocation).  Growth of the result vectors (`features`, tag ids, tables) is not listed: every pushed
+element has consumed at least one input byte and has a constant size. -/
+
+/-- allocations of all iterations of a `while has_remaining` loop whose body is `step` and whose
+    per-iteration allocations are `al` (same continuation rule as `Prim.whileRem`) -/
+def loopAllocs {σ : Type} (step : σ → Prim.Reader → Outcome (σ × Prim.Reader)) (al : σ → Prim.Reader → List Nat)
+    (s : σ) (r : Prim.Reader) : List Nat :=
+  if r.rest.isEmpty then [] else
+  al s r ++
+    (match step s r with
+     | .ok (s', r') => if r'.rest.length < r.rest.length then loopAllocs step al s' r' else []
+     | .err => []
+     | .panic => [])
+termination_by r.rest.length
+
+/-- `read_pbf_string` / `read_pbf_blob` after the key: the traced reads of this file -/
+def lenPrefixedAllocs (r1 : Prim.Reader) : List Nat := (readPbfBlob false r1).allocs
+
+/-- `GeoValue::read`: only field (1, wire 2) = string value allocates -/
+def valueAllocs (_ : Option Mvt.Value) (r : Prim.Reader) : List Nat :=
+  match Prim.readPbfKey r with
+  | .ok ((1, 2), r1) => lenPrefixedAllocs r1
+  | _ => []
+
+/-- `VectorTileFeature::read`: field (4, wire 2) = geometry blob -/
+def featureAllocs (_ : Mvt.Feature) (r : Prim.Reader) : List Nat :=
+  match Prim.readPbfKey r with
+  | .ok ((4, 2), r1) => lenPrefixedAllocs r1
+  | _ => []
+
+/-- `VectorTileLayer::read`: name (1), key (3) strings; feature (2) and value (4) sub-messages -/
+def layerAllocs (_ : Mvt.LayerSt) (r : Prim.Reader) : List Nat :=
+  match Prim.readPbfKey r with
+  | .ok ((1, 2), r1) => lenPrefixedAllocs r1
+  | .ok ((3, 2), r1) => lenPrefixedAllocs r1
+  | .ok ((2, 2), r1) =>
+    (match Prim.readPbfSub r1 with
+     | .ok (sub, _) => loopAllocs Mvt.featureStep featureAllocs Mvt.Feature.empty (Prim.Reader.ofBytes sub)
+     | _ => [])
+  | .ok ((4, 2), r1) =>
+    (match Prim.readPbfSub r1 with
+     | .ok (sub, _) => loopAllocs Mvt.valueStep valueAllocs none (Prim.Reader.ofBytes sub)
+     | _ => [])
+  | _ => []
+
+/-- `VectorTile::from_blob`: field (3, wire 2) = layer sub-message -/
+def tileAllocs (_ : List Mvt.Layer) (r : Prim.Reader) : List Nat :=
+  match Prim.readPbfKey r with
+  | .ok ((3, 2), r1) =>
+    (match Prim.readPbfSub r1 with
+     | .ok (sub, _) => loopAllocs Mvt.layerStep layerAllocs Mvt.LayerSt.init (Prim.Reader.ofBytes sub)
+     | _ => [])
+  | _ => []
+
+/-- all announced-length allocations of `VectorTile::from_blob(input)` -/
+def mvtAllocs (input : Bytes) : List Nat := loopAllocs Mvt.tileStep tileAllocs [] (Prim.Reader.ofBytes input)
+
+/-- the same with the reads as they were before 4706f789 (allocate first) — only the top of the
+    trace is needed for the counterexample: tile → layer → name string -/
+def mvtNameAllocOld (input : Bytes) : List Nat :=
+  match Prim.readPbfKey (Prim.Reader.ofBytes input) with
+  | .ok ((3, 2), r1) =>
+    (match Prim.readPbfSub r1 with
+     | .ok (sub, _) =>
+       (match Prim.readPbfKey (Prim.Reader.ofBytes sub) with
+        | .ok ((1, 2), r2) => (readPbfString true r2).allocs
+        | _ => [])
+     | _ => [])
+  | _ => []
+
 /-! ## positional reads (`Blob::read_range`, `DataReaderBlob::read_range`, `DataReaderFile::read_range`) -/
 
 /-- BEFORE 7ce9b171, `DataReaderBlob` / `Blob`: `offset + length` unchecked, then the bounds test,
@@ -383,6 +459,8 @@ def handle (args : List String) : String :=
       -- the pre-fix variants, for replaying the historical counterexamples
       | "csv-old" => verdictO (csvRows true 0x2c bs)
       | "pbfstr-old" => verdictO (pbfStrBlob true bs).out
+      -- `C19 mvtalloc <hex>` → largest announced-length allocation of the decoder (0 if none)
+      | "mvtalloc" => toString ((mvtAllocs bs).foldl max 0)
       | _ => "bad-op"
   | _ => "bad-op"
 
